@@ -743,6 +743,77 @@ func init() {
 	}
 }
 
+// reuserand: receivers used more than once (C18, C02). For random pairs (v, w) of one kind: v is encoded
+// and decoded into a fresh receiver, then the encoding of w - as it is, or damaged - is decoded into the
+// same receiver, which is then used; and the encoding of v is decoded into the caller's packet holding w.
+func init() {
+	drivers["reuserand"] = func(s *exec.State, g *gen.G, n int) {
+		kinds := append(append([]string{}, g.Kinds()...), "CP")
+		for i := 0; i < n; i++ {
+			kind := kinds[g.R.Intn(len(kinds))]
+			mk := func() abs.V {
+				if kind == "CP" {
+					head := g.RR()
+					if g.Bool() {
+						head = g.SR()
+					}
+					pk := abs.L{head, abs.V{"k": "SDES", "chunks": abs.L{abs.V{"src": g.U32(), "items": abs.L{abs.V{"t": 1, "text": g.Bytes(g.Int(1, 6))}}}}}}
+					for j := g.Int(0, 3); j > 0; j-- {
+						pk = append(pk, g.Of([]string{"BYE", "PLI", "APP", "NACK", "FIR", "XR"}[g.R.Intn(6)]))
+					}
+					return abs.V{"k": "CP", "pkts": pk}
+				}
+				return g.Of(kind)
+			}
+			v, w := mk(), mk()
+			s.Reset()
+			s.Build(1, v)
+			s.Marshal(1)
+			if s.Buf[1] == nil {
+				continue
+			}
+			if i%3 == 2 {
+				// the caller's own packet as the receiver
+				s.Rebuild(1, w)
+				s.UnmarshalInto(kind, 1, 1)
+				if has(s, 1) {
+					s.Size(1)
+					s.Dest(1)
+					s.Marshal(1)
+				}
+				continue
+			}
+			s.Unmarshal(kind, 1, 2)
+			if !has(s, 2) {
+				continue
+			}
+			s.Dest(2)
+			s.Marshal(2)
+			s.Rebuild(1, w)
+			s.Marshal(1)
+			if s.Buf[1] == nil {
+				continue
+			}
+			if i%3 == 1 {
+				b := mutate(g, s.Buf[1])
+				if g.Bool() {
+					b = mutate(g, b)
+				}
+				s.SetBuf(1, b)
+			}
+			s.UnmarshalInto(kind, 1, 2)
+			if has(s, 2) {
+				s.Size(2)
+				s.Dest(2)
+				s.Marshal(2)
+				if s.Buf[2] != nil && kind != "CP" {
+					s.Unmarshal(kind, 2, 3)
+				}
+			}
+		}
+	}
+}
+
 // altValue: another value of the same kind for an in-place rebuild in random histories.
 var altGen func() abs.V
 
